@@ -142,7 +142,7 @@ def install_events(it):
                 if rd.trim:
                     while raw and B(it_, z3.Or(*[raw[0] == w for w in WS_CHARS]) if is_sym(raw[0]) else raw[0] in WS_CHARS): raw.pop(0)
                     while raw and B(it_, z3.Or(*[raw[-1] == w for w in WS_CHARS]) if is_sym(raw[-1]) else raw[-1] in WS_CHARS): raw.pop()
-                    if not raw: continue
+                if not raw: continue          # a parser never reports an empty text node (<a></a> is Start, End)
                 payload = TextObj(raw)
             return OK(Adt(order.index(name), [payload] if payload is not None else [], 'quick_xml::events::Event'))
         return OK(Adt(order.index('Eof'), [], 'quick_xml::events::Event'))
